@@ -50,7 +50,9 @@ const INVALID = ['{"customElementPatterns":["("]}', '{"customElementPatterns":["
 // ---- (b) non-interference space
 const NI_ATTRS = ['id', 'bident', 'clsS', 'clsD', 'styO', 'onClick1', 'onClick2', 'sp1', 'spObj', 'on', 'nativeOn', 'key', 'ref', 'xlink'];
 const NI_EXTRA = { onNs: 'on:click={h1}', nativeOnNs: 'nativeOn:x={h2}', vmodel: 'v-model={mv}', vfoo: 'v-foo={x}', vslots: 'v-slots={{ foo: h2 }}' };
-const NI_CHILDREN = { elDir: '<p v-show={c} />', inputModel: '<input v-model={mv} />', compDir: '<B v-foo={x} />', text: 'a', bx: '{x}', call: '{f()}', el: '<b/>', arrow: '{() => [x]}', objlit: '{{ default: () => [x] }}', comp: '<B>{y}</B>', icon: '<i-icon/>', spread: '{...xs}', member: '{o.p}' };
+const NI_CHILDREN = { elDir: '<p v-show={c} />', inputModel: '<input v-model={mv} />', compDir: '<B v-foo={x} />', text: 'a', bx: '{x}', call: '{f()}', el: '<b/>', arrow: '{() => [x]}', objlit: '{{ default: () => [x] }}', comp: '<B>{y}</B>', icon: '<i-icon/>', spread: '{...xs}', member: '{o.p}',
+  // a bound identifier that is not the sole child of a component: nested in a plain element, or next to another child (one child event)
+  elBx: '<span>{x}</span>', bxEl: '{x}<b/>', elCall: '<span>{f()}</span>' };
 const NI_HOSTS = ['div', 'Comp', 'iicon', 'memberFoo', 'IiconNoLeak'];
 const attrSrc = (k) => (NI_EXTRA[k] ? NI_EXTRA[k] : E.ATTRS[k].src);
 const attrName = (k) => (NI_EXTRA[k] ? k : E.ATTRS[k].src.split(/[=\s{]/)[0]);
@@ -167,7 +169,7 @@ function spaces(tier) {
         const AK = NI_ATTRS.concat(Object.keys(NI_EXTRA));
         const CK = Object.keys(NI_CHILDREN);
         for (const host of NI_HOSTS) for (const as of sequences(AK.length, 2, { distinct: true })) for (const cs of sequences(CK.length, thorough ? 2 : 1, { ok: (idx, pos) => !(pos > 0 && CK[idx[pos]] === 'text' && CK[idx[pos - 1]] === 'text') })) {
-          if (!thorough && as.length === 2 && cs.length === 1 && !['bx', 'arrow', 'objlit', 'comp', 'elDir', 'inputModel', 'compDir'].includes(CK[cs[0]])) continue;
+          if (!thorough && as.length === 2 && cs.length === 1 && !['bx', 'arrow', 'objlit', 'comp', 'elDir', 'inputModel', 'compDir', 'elBx', 'bxEl'].includes(CK[cs[0]])) continue;
           yield { sp: 'N', host, at: as.map((i) => AK[i]), ch: cs.map((i) => CK[i]) };
         }
       },
